@@ -22,11 +22,15 @@ theorem dwd_of_delivered_clse {evs : List TEv} {c : Pkt} (h : delivered evs = [c
     Push.deliveredWrteData evs = [] := by
   simp [Push.deliveredWrteData, push_delivered_eq, h, hc]
 
-/-- `try: x finally: fin` — both parts ran, in this order; the result is `x`'s unless `fin` raised -/
+/-- `pull`'s clean-up discipline (`M.tryFinally`, after the repair of the `finally`-masking defect):
+    both parts ran, in this order; when `x` raised, ITS exception is the result whatever `fin` did;
+    when `x` returned normally the result is `x`'s unless `fin` raised -/
 theorem tryFinally_inv {α} {x : M α} {fin : M Unit} {w w' : World} {res : Except Err α}
     (h : M.tryFinally x fin w = (res, w')) :
     ∃ r1 w1 r2, x w = (r1, w1) ∧ fin w1 = (r2, w') ∧
-      res = (match r2 with | .ok _ => r1 | .error e' => .error e') := by
+      res = (match r1 with
+        | .error e => .error e
+        | .ok a => (match r2 with | .ok _ => .ok a | .error e' => .error e')) := by
   unfold M.tryFinally at h
   cases hx : x w with
   | mk r1 w1 =>
@@ -225,7 +229,8 @@ theorem devList_exact {devPath : Bytes} {tt rt : Timeout} {w w' : World} {v : Va
 
 /-- `pull`, every outcome: either the call failed before a stream was open (a guard or `_open`
     raised), or a stream `t` was opened, `_pull` ran with some outcome `r1` and then `_clse(t)` ran
-    with some outcome `r2` — the `finally` clause — whose exception, if any, replaces `r1` -/
+    with some outcome `r2` — on every path.  If `_pull` raised, that exception is the result whatever
+    the close did; if `_pull` returned normally, an exception of the close is the result -/
 theorem devPull_inv {devPath : Bytes} {cb : CbMode} {tt rt : Timeout} {w w' : World} {res : Except Err Val}
     (h : devPull devPath cb tt rt w = (res, w')) :
     (∃ e, res = .error e ∧ runGuards (guardsFor "pull") (some devPath) w = (.error e, w')) ∨
@@ -236,7 +241,9 @@ theorem devPull_inv {devPath : Bytes} {cb : CbMode} {tt rt : Timeout} {w w' : Wo
       openStream (ascii "sync:") tt rt none { w0 with sink := some [] } = (.ok t, w1) ∧
       pullInner devPath cb t { fmt := .pull, maxdata := w1.maxdata } w1 = (r1, w2) ∧
       clse t w2 = (r2, w') ∧
-      res = (match r2 with | .ok _ => (match r1 with | .ok _ => .ok Val.none | .error e => .error e) | .error e' => .error e')) := by
+      res = (match r1 with
+        | .error e => .error e
+        | .ok _ => (match r2 with | .ok _ => .ok Val.none | .error e' => .error e'))) := by
   unfold devPull at h
   rw [bind_run] at h
   cases h0 : runGuards (guardsFor "pull") (some devPath) w with
@@ -268,7 +275,7 @@ theorem devPull_inv {devPath : Bytes} {cb : CbMode} {tt rt : Timeout} {w w' : Wo
             rw [h2] at h
             obtain ⟨r1, w2, r2, hx, hf, rfl⟩ := tryFinally_inv h2
             refine Or.inr (Or.inr ⟨w0, t, w1, r1, w2, r2, rfl, h1, hx, ?_⟩)
-            cases r2 <;> cases r1 <;> simp only [pure_run, Prod.mk.injEq] at h <;> obtain ⟨rfl, rfl⟩ := h <;>
+            cases r1 <;> cases r2 <;> simp only [pure_run, Prod.mk.injEq] at h <;> obtain ⟨rfl, rfl⟩ := h <;>
               exact ⟨hf, rfl⟩
 
 /-- the `total_bytes` that `_pull` takes from a `stat` result -/
@@ -323,12 +330,12 @@ theorem devPull_exact {devPath : Bytes} {cb : CbMode} {tt rt : Timeout} {w w' : 
   rcases devPull_inv h with ⟨e, he, -⟩ | ⟨e, w0, he, -⟩ | ⟨w0, t, w1, r1, w2, r2, h0, h1, hin, hcl, hres⟩
   · cases he
   · cases he
-  · cases r2 with
+  · cases r1 with
     | error e => cases hres
-    | ok u2 =>
-      cases r1 with
+    | ok u1 =>
+      cases r2 with
       | error e => cases hres
-      | ok u1 =>
+      | ok u2 =>
         simp only [Except.ok.injEq] at hres
         obtain ⟨total, wa, fi1, wb, hst, hsend, hloop⟩ := pullInner_ok hin
         obtain ⟨e0, he0, hp0⟩ := noProg_step (Tr_runGuards _ _) h0
@@ -377,7 +384,8 @@ theorem devPull_exact {devPath : Bytes} {cb : CbMode} {tt rt : Timeout} {w w' : 
 
 /-- `pull`, EVERY outcome: either a guard or `_open` raised (no stream was opened), or a stream
     `t` was opened and — whatever happened in between — the last message handed to `_send` is the
-    CLSE of that stream: `_clse` runs in the `finally` clause -/
+    CLSE of that stream: `_clse` runs on every path (in the `except BaseException` handler when the
+    transfer raised, after the transfer otherwise) -/
 theorem devPull_closes {devPath : Bytes} {cb : CbMode} {tt rt : Timeout} {w w' : World} {res : Except Err Val}
     {evs : List TEv} (h : devPull devPath cb tt rt w = (res, w')) (hev : w'.trace = evs ++ w.trace)
     (hl : lockTransport ∉ w.locks) :
@@ -409,7 +417,7 @@ theorem devPull_closes {devPath : Bytes} {cb : CbMode} {tt rt : Timeout} {w w' :
     intro v hv
     cases r2 with
     | ok u => exact hclse u rfl
-    | error e => rw [hv] at hres; cases hres
+    | error e => rw [hv] at hres; cases r1 <;> cases hres
 
 /-! ### the whole call's stream (idle device) -/
 
@@ -531,20 +539,38 @@ theorem pullInner_none_any {devPath : Bytes} {t : Txn} {fi : FsInfo} {w w' : Wor
       rw [Push.get_bind_run] at h
       exact Or.inr ⟨fi1, wb, rfl, h⟩
 
+/-- the close cannot mask the transfer's exception: if `_pull` raised `e` (inside a `pull` that got
+    past the guards and `_open`), `pull` raises exactly `e`, whatever `_clse` does afterwards -/
+theorem devPull_close_cannot_mask {devPath : Bytes} {cb : CbMode} {tt rt : Timeout} {w w' w0 w1 w2 : World}
+    {res : Except Err Val} {t : Txn} {e : Err}
+    (h : devPull devPath cb tt rt w = (res, w'))
+    (h0 : runGuards (guardsFor "pull") (some devPath) w = (.ok (), w0))
+    (h1 : openStream (ascii "sync:") tt rt none { w0 with sink := some [] } = (.ok t, w1))
+    (hin : pullInner devPath cb t { fmt := .pull, maxdata := w1.maxdata } w1 = (.error e, w2)) :
+    res = .error e ∧ ∃ r2, clse t w2 = (r2, w') := by
+  rcases devPull_inv h with ⟨e', -, hg⟩ | ⟨e', w0', -, hg, ho⟩ | ⟨w0', t', w1', r1, w2', r2, h0', h1', hin', hcl, hres⟩
+  · rw [h0] at hg; cases hg
+  · rw [h0] at hg; cases hg
+    rw [h1] at ho; cases ho
+  · rw [h0] at h0'; cases h0'
+    rw [h1] at h1'; cases h1'
+    rw [hin] at hin'; cases hin'
+    exact ⟨hres, r2, hcl⟩
+
 /-- what else can end a `pull` whose device stream carries a FAIL record: an exception before the
-    transfer (guard, `_open`, sending the RECV request), an exception below the parser during the
-    transfer, or — replacing the pending exception — an exception raised by `_clse` in the `finally` clause -/
+    transfer (guard, `_open`, sending the RECV request) or an exception below the parser during the
+    transfer (loop budget, or the acknowledgement of a delivered WRTE could not be sent).  An
+    exception of `_clse` is NOT among them: it can no longer replace the transfer's exception. -/
 def PullPreempted (devPath : Bytes) (tt rt : Timeout) (w : World) (e : Err) (w' : World) : Prop :=
   runGuards (guardsFor "pull") (some devPath) w = (.error e, w') ∨
   (∃ w0, openStream (ascii "sync:") tt rt none w0 = (.error e, w')) ∨
-  (∃ t w2, clse t w2 = (.error e, w')) ∨
   (∃ t fi wa w2, fsSend .RECV t fi devPath none wa = (.error e, w2)) ∨
   (∃ t w2, LoopAborted t e w2)
 
 /-- `pull` (no callback, idle device), EVERY outcome, when the WRTE payloads delivered during the call
     are DATA records followed by a FAIL record with message `m`: the call raises
-    `AdbCommandFailureException(m)` — it never returns normally — unless another exception pre-empted
-    or replaced it (`PullPreempted`). -/
+    `AdbCommandFailureException(m)` — it never returns normally, and whatever the close handshake
+    does — unless an exception pre-empted the parser (`PullPreempted`). -/
 theorem devPull_fail {devPath : Bytes} {tt rt : Timeout} {w w' : World} {res : Except Err Val} {evs : List TEv}
     {chunks : List Bytes} {mid rest : Bytes} {f : List Nat} {m : Bytes}
     (h : devPull devPath .none tt rt w = (res, w')) (hev : w'.trace = evs ++ w.trace) (hl : w.locks = [])
@@ -572,25 +598,21 @@ theorem devPull_fail {devPath : Bytes} {tt rt : Timeout} {w w' : World} {res : E
       rw [Push.deliveredWrteData_append, guards_dwd h0 he0, openStream_dwd h1 (hl0.trans hl) he1']
       rfl
     rw [dwd_split hevs hdw4 hpre] at hrecs
-    cases r2 with
-    | error e' =>
-      exact Or.inr ⟨e', hres, Or.inr (Or.inr (Or.inl ⟨t, w2, hcl⟩))⟩
-    | ok u =>
-      rcases pullInner_none_any hin with ⟨e, hr1, hs⟩ | ⟨fi1, wb, hs, hloop⟩
+    rcases pullInner_none_any hin with ⟨e, hr1, hs⟩ | ⟨fi1, wb, hs, hloop⟩
+    · subst hr1
+      exact Or.inr ⟨e, hres, Or.inr (Or.inr (Or.inl ⟨t, _, _, _, hs⟩))⟩
+    · obtain ⟨es, hes⟩ := Push.Fr.evs (Fr_fsSend _ _ _ _ _) hs
+      obtain ⟨el, hel⟩ := Push.Fr.evs (Fr_pullLoop _ _ _ _ _ _) hloop
+      have he2' : e2 = el ++ es := Push.evs_split hes hel he2
+      have hrb := fsSend_recv hs hes
+      obtain ⟨-, -, hfmt, -, -⟩ := Push.fsSend_ok hs hes
+      rw [he2', Push.deliveredWrteData_append] at hrecs
+      have hrecs' : Recs .pull (fi1.recvBuf ++ Push.deliveredWrteData el) (chunks.map dataRec) mid := by
+        rw [hrb]; exact hrecs
+      rcases pullLoop_fail hloop hel hfmt hrecs' hfail with hr1 | ⟨e, hr1, hab⟩
       · subst hr1
-        exact Or.inr ⟨e, hres, Or.inr (Or.inr (Or.inr (Or.inl ⟨t, _, _, _, hs⟩)))⟩
-      · obtain ⟨es, hes⟩ := Push.Fr.evs (Fr_fsSend _ _ _ _ _) hs
-        obtain ⟨el, hel⟩ := Push.Fr.evs (Fr_pullLoop _ _ _ _ _ _) hloop
-        have he2' : e2 = el ++ es := Push.evs_split hes hel he2
-        have hrb := fsSend_recv hs hes
-        obtain ⟨-, -, hfmt, -, -⟩ := Push.fsSend_ok hs hes
-        rw [he2', Push.deliveredWrteData_append] at hrecs
-        have hrecs' : Recs .pull (fi1.recvBuf ++ Push.deliveredWrteData el) (chunks.map dataRec) mid := by
-          rw [hrb]; exact hrecs
-        rcases pullLoop_fail hloop hel hfmt hrecs' hfail with hr1 | ⟨e, hr1, hab⟩
-        · subst hr1
-          exact Or.inl hres
-        · subst hr1
-          exact Or.inr ⟨e, hres, Or.inr (Or.inr (Or.inr (Or.inr ⟨t, w2, hab⟩)))⟩
+        exact Or.inl hres
+      · subst hr1
+        exact Or.inr ⟨e, hres, Or.inr (Or.inr (Or.inr ⟨t, w2, hab⟩))⟩
 
 end Adb.SR
